@@ -93,6 +93,11 @@ def r1(ctx):
         cb, _ = mir.closure_body(ctx.facts, fm[0][2][1])
         okf = render(cb.return_term()) == "future::ready(Result::ok($1))"
     ctx.check("with_reconnect_backoff", okf, "failed attempts deliver nothing (result.ok())", key="drop-errors")
+    rt = wb.return_term()
+    shape = len(fm) == 1 and rt == fm[0] and fm[0][2][0][0] == "call" and fm[0][2][0][1].endswith("StreamExt::scan") and \
+        render(fm[0][2][0][2][0]) == "StreamExt::enumerate(self)"
+    ctx.check("with_reconnect_backoff", shape, "the stream returned is filter_map(scan(enumerate(self), state, closure)) - every init result "
+              "passes through the backoff closure exactly once, nothing else is added or removed", got=render(rt)[:200], key="returned-unfiltered")
     # state arithmetic
     fr = ctx.body(ctx.find(name="from", self_adt=STATE))
     rt = fr.return_term()
@@ -161,6 +166,8 @@ def r2(ctx):
     wb = ctx.body(w)
     mw = [tm for bi, t, tm in wb.real_calls() if tm[1].endswith("StreamExt::map")]
     ctx.check("with_termination_on_error", len(mw) == 1 and render(mw[0][2][0]) == "self", "applied to every connection", got=[render(x)[:100] for x in mw], key="per-connection")
+    ctx.check("with_termination_on_error", len(mw) == 1 and wb.return_term() == mw[0], "and returned as it is (no further adapter)",
+              got=render(wb.return_term())[:160], key="returned-unfiltered")
 
 
 def r3(ctx):
@@ -182,6 +189,9 @@ def r3(ctx):
     fl = [tm for bi, t, tm in wb.real_calls() if tm[1].endswith("StreamExt::flatten")]
     ok = len(mp) == 1 and len(fl) == 1 and fl[0][2][0] == mp[0] and render(mp[0][2][0]) == "self"
     ctx.check("with_reconnection_events", ok, "every connection is mapped and the result flattened in order", got=[render(x)[:100] for x in mp + fl], key="map-flatten")
+    ctx.check("with_reconnection_events", ok and wb.return_term() == fl[0],
+              "the flattened stream is returned as it is (nothing filters or reorders items / notices afterwards)",
+              got=render(wb.return_term())[:200], key="returned-unfiltered")
     if not ok:
         return
     cb, _ = mir.closure_body(ctx.facts, mp[0][2][1])
@@ -224,6 +234,10 @@ def r4(ctx):
             ".as:Item.0=Ok,_=Item": "Option::Some{0: Event::Item{0: $1.as:Item.0.as:Ok.0}}",
             ".as:Item.0=Err,_=Item": "Option::None{}"}
     ctx.check("with_error_handler", tab == want, "notices and items pass; errors are removed from the stream", got=tab, want=want, key="table")
+    wbody = ctx.body(w)
+    fms = [tm for bi, t, tm in wbody.real_calls() if tm[1].endswith("StreamExt::filter_map")]
+    ctx.check("with_error_handler", len(fms) == 1 and wbody.return_term() == fms[0] and render(fms[0][2][0]) == "self",
+              "the stream returned is filter_map(self, handler closure) and nothing else", got=render(wbody.return_term())[:160], key="returned-unfiltered")
     ops = [(bi, t, tm) for bi, t, tm in leaf.real_calls() if tm[1].endswith(("Fn::call", "FnOnce::call_once", "FnMut::call_mut"))]
     ok = len(ops) == 1 and "as:Item.0.as:Err.0" in render(ops[0][2]) and \
         all(any(a[0] == "is" and a[2] == frozenset(["Err"]) for a in conj) for conj in leaf.guard(ops[0][0]))
